@@ -87,7 +87,7 @@ def run(ctx):
             viol("reading", "read as %s; a C compiler reads %s" % ([k for k in kinds[:3]], c["want"]))
     ctx.cov.update({
         "evaluations": len(lines), "traces_validated_against_impl": len(lines), "distinct_nontrivial": len({(c["form"], c["ctx"], c["how"]) for c in cases}), "exhaustive": True,
-        "rule": "every ambiguity form ((T) - x, (T) + x, (T) * x, (T) & x, (T) && x, sizeof(T), _Alignof(T), T * x;, T (x);, T ((x));) x every context (26 expression contexts: expression statements, initialisers, call arguments, subscripts, conditions, for clauses, return, switch, case labels, conditional/comma/binary/unary operands, array initialisers, VLA sizes, labelled and nested statements, static assertions; 9 statement contexts) x 10 ways of declaring the name (file/block typedef, struct typedef, file/block variable, parameter, typedef shadowed by variable/parameter, variable shadowed by typedef, enumerator) x the same spellings in another name space or in a scope that has ended (struct member before/after, tag, member access, label, prototype parameter, another function's parameter / local variable / local typedef; quick: a quarter of these variants) x shadowing redeclaration of the declared variable x the 4 disambiguation modes (complete cross product of the generator's tables)",
+        "rule": "every ambiguity form ((T) - x, (T) + x, (T) * x, (T) & x, (T) && x, (T[0]) - x, (T(1)) - x, sizeof(T[2]), sizeof(T), _Alignof(T), T * x;, T (x);, T ((x));) x every context (26 expression contexts: expression statements, initialisers, call arguments, subscripts, conditions, for clauses, return, switch, case labels, conditional/comma/binary/unary operands, array initialisers, VLA sizes, labelled and nested statements, static assertions; 9 statement contexts) x 10 ways of declaring the name (file/block typedef, struct typedef, file/block variable, parameter, typedef shadowed by variable/parameter, variable shadowed by typedef, enumerator) x the same spellings in another name space or in a scope that has ended (struct member before/after, tag, member access, label, prototype parameter, another function's parameter / local variable / local typedef; quick: a quarter of these variants) x shadowing redeclaration of the declared variable x the 4 disambiguation modes (complete cross product of the generator's tables)",
         "samples": [cases[0]["text"], cases[len(cases) // 2]["text"], cases[-1]["text"]],
     })
     ctx.notes.update({"cases": len(cases), "violations": nviol, "tally": dict(tally), "known_hits": dict(known), "gcc_sample": {"checked": ngcc, "rejected": nbad}})
